@@ -21,7 +21,7 @@ TECHNIQUE = ("property-based testing (Hypothesis) with recording privacy plug-in
              "hashes and engines inside one process")
 RULE = ("case = 1..3 sessions in one process, each = authPriv user (MD5 | SHA-1, auth and privacy passwords 1..64 octets, plug-in "
         "verifstream | verifblock, salt of any shape: 8 octets, 16-octet counter with leading zeros, 8 or 12 zero octets, empty, 40 octets; likewise in responses) x engine id x optional context engine id / name x operation {get, multiget, getnext, set, "
-        "multiset, walk, bulkwalk, a SET refused with error-status 17 inside an encrypted response} with marker strings in SET values and context name; sessions may reuse user name and "
+        "multiset, walk, bulkwalk, a SET refused with error-status 17 inside an encrypted response} with marker strings in SET values and context name; the last session's plug-in may be one that is installed only when that session starts; sessions may reuse user name and "
         "engine with a rotated privacy password or the other hash; plus the boundary of an EMPTY privacy password (nothing may leave in clear); non-trivial = a SET carrying a marker, a payload of >= 2 "
         "keystream blocks, or >= 2 sessions sharing user name and engine; distinct = SHA-1 of canonical JSON case")
 ASSUMPTIONS = [
@@ -39,8 +39,53 @@ for _r in (1, 2, 3):
     DB[COL + (_r,)] = (vber.T_OCTETS, b"cell-%d" % _r + b"x" * 30)
 
 
+_LATE = {}       # privacy plug-ins installed while the process is running: name -> (directory, module)
+
+
 def _plugins():
-    return {n: importlib.import_module("puresnmp_plugins.priv." + n) for n in ("verifstream", "verifblock")}
+    out = {n: importlib.import_module("puresnmp_plugins.priv." + n) for n in ("verifstream", "verifblock")}
+    out.update({n: m for n, (_d, m) in _LATE.items()})
+    return out
+
+
+def install_late_plugin(name="veriflate"):
+    """a valid privacy plug-in (a copy of verifstream under another identifier) that becomes available only NOW, after the
+    process has already looked plug-ins up -- as when a package is installed into a running application"""
+    import os
+    import shutil
+    import sys
+    import tempfile
+
+    if name in _LATE:
+        return
+    src = importlib.import_module("puresnmp_plugins.priv.verifstream").__file__
+    d = tempfile.mkdtemp(prefix="c11-late-")
+    os.makedirs(os.path.join(d, "puresnmp_plugins", "priv"))
+    code = open(src).read().replace('IDENTIFIER = "verifstream"', 'IDENTIFIER = "%s"' % name).replace("IANA_ID = -99", "IANA_ID = -97")
+    with open(os.path.join(d, "puresnmp_plugins", "priv", name + ".py"), "w") as f:
+        f.write(code)
+    sys.path.append(d)
+    importlib.invalidate_caches()
+    mod = importlib.import_module("puresnmp_plugins.priv." + name)
+    vagent.PRIV_IMPL[name] = vagent.PRIV_IMPL["verifstream"]
+    _LATE[name] = (d, mod)
+
+    import atexit
+    atexit.register(shutil.rmtree, d, True)
+
+
+def remove_late_plugins():
+    import shutil
+    import sys
+
+    for name, (d, _m) in list(_LATE.items()):
+        if d in sys.path:
+            sys.path.remove(d)
+        sys.modules.pop("puresnmp_plugins.priv." + name, None)
+        shutil.rmtree(d, ignore_errors=True)
+        vagent.PRIV_IMPL.pop(name, None)
+        del _LATE[name]
+    importlib.invalidate_caches()
 
 
 def run_session(s, classes):
@@ -245,10 +290,19 @@ def run_case(case) -> Result:
         if s["op"] in ("set", "multiset", "walk", "bulkwalk", "multiget") or len(s.get("ctx_name", "")) > 60:
             classes.add("two_blocks")
             nontrivial = True
-    for i, s in enumerate(sessions):
-        msg, known = run_session(s, classes)
-        if msg is not None:
-            return Result("session %d: %s" % (i, msg), nontrivial, sorted(classes), known=known)
+    try:
+        for i, s in enumerate(sessions):
+            if s["priv"] == "veriflate":
+                # this session's plug-in is installed only now -- after the earlier sessions (if any) made the library look
+                # plug-ins up
+                classes.add("plugin_installed_late" if i else "plugin_installed_before_first_use")
+                nontrivial = nontrivial or i > 0
+                install_late_plugin()
+            msg, known = run_session(s, classes)
+            if msg is not None:
+                return Result("session %d: %s" % (i, msg), nontrivial, sorted(classes), known=known)
+    finally:
+        remove_late_plugins()
     return Result(None, nontrivial, sorted(classes))
 
 
@@ -295,6 +349,8 @@ def cases(draw):
         elif pat == "same_pw_both":
             b.update(priv_pw=b["auth_pw"])
         sessions[i] = b
+    if draw(st.integers(0, 5)) == 0:
+        sessions[-1]["priv"] = "veriflate"       # a plug-in that is installed while the process is running
     return dict(sessions=sessions)
 
 
